@@ -638,16 +638,32 @@ impl Database {
         let table_name = table_def.name().to_string();
         let columns = table_def.columns().to_vec();
 
-        let secondary_indexes: Vec<(String, Vec<usize>)> = table_def
+        let unique_column_index_names: Vec<String> = columns
+            .iter()
+            .filter_map(|col| {
+                if col.has_constraint(&Constraint::PrimaryKey) {
+                    Some(format!("{}_pkey", col.name()))
+                } else if col.has_constraint(&Constraint::Unique) {
+                    Some(format!("{}_key", col.name()))
+                } else {
+                    None
+                }
+            })
+            .collect();
+
+        // (name, key columns, unique?) of every other B-tree index; the per-column
+        // UNIQUE / PRIMARY KEY indexes are handled through `unique_columns`.
+        let secondary_indexes: Vec<(String, Vec<usize>, bool)> = table_def
             .indexes()
             .iter()
             .filter(|idx| idx.index_type() == IndexType::BTree)
+            .filter(|idx| !unique_column_index_names.iter().any(|n| n == idx.name()))
             .map(|idx| {
                 let col_indices: Vec<usize> = idx
                     .columns()
                     .filter_map(|col_name| columns.iter().position(|c| c.name() == col_name))
                     .collect();
-                (idx.name().to_string(), col_indices)
+                (idx.name().to_string(), col_indices, idx.is_unique())
             })
             .collect();
 
@@ -677,7 +693,11 @@ impl Database {
         let table_storage_arc = file_manager.table_data_mut(&schema_name, &table_name)?;
         let mut table_storage = table_storage_arc.write();
 
-        let mut btree = BTree::new(&mut *table_storage, 1)?;
+        let table_root_page = {
+            let page = table_storage.page(0)?;
+            TableFileHeader::from_bytes(page)?.root_page()
+        };
+        let mut btree = BTree::new(&mut *table_storage, table_root_page)?;
 
         if entry.is_insert {
             let row_values: Option<Vec<OwnedValue>> =
@@ -730,7 +750,7 @@ impl Database {
                     }
                 }
 
-                for (index_name, col_indices) in &secondary_indexes {
+                for (index_name, col_indices, is_unique_index) in &secondary_indexes {
                     if col_indices.is_empty() {
                         continue;
                     }
@@ -739,7 +759,7 @@ impl Database {
                             .iter()
                             .all(|&idx| row_values.get(idx).is_some_and(|v| !v.is_null()));
 
-                        if all_non_null {
+                        if all_non_null || !*is_unique_index {
                             let index_storage_arc = file_manager.index_data_mut(
                                 &schema_name,
                                 &table_name,
@@ -760,15 +780,103 @@ impl Database {
                                     Self::encode_value_as_key(value, key_buf);
                                 }
                             }
+                            if !*is_unique_index {
+                                key_buf.extend_from_slice(&entry.key);
+                            }
                             let _ = index_btree.delete(key_buf);
                         }
                     }
                 }
             }
         } else if let Some(old_value) = undo_data {
+            // What the row looks like now (after the UPDATE / DELETE being undone):
+            // its index entries have to go before the old ones come back.
+            let (current_row_values, current_is_tombstone): (Option<Vec<OwnedValue>>, bool) =
+                match btree.get(&entry.key)? {
+                    Some(raw_value) => {
+                        let is_tombstone = raw_value.len() >= crate::mvcc::RecordHeader::SIZE
+                            && crate::mvcc::RecordHeader::from_bytes(raw_value).is_deleted();
+                        let user_data = get_user_data(raw_value);
+                        let values = RecordView::new(user_data, &schema)
+                            .ok()
+                            .and_then(|record| {
+                                OwnedValue::extract_row_from_record(&record, &columns).ok()
+                            });
+                        (values, is_tombstone)
+                    }
+                    None => (None, false),
+                };
+            let old_is_tombstone = old_value.len() >= crate::mvcc::RecordHeader::SIZE
+                && crate::mvcc::RecordHeader::from_bytes(old_value).is_deleted();
+
             btree.delete(&entry.key)?;
             btree.insert(&entry.key, old_value)?;
+
+            if current_is_tombstone && !old_is_tombstone {
+                // undoing a DELETE brings a row back
+                let page = table_storage.page_mut(0)?;
+                let header = TableFileHeader::from_bytes_mut(page)?;
+                let new_count = header.row_count().saturating_add(1);
+                header.set_row_count(new_count);
+            }
             drop(table_storage);
+
+            if let (Some(row_values), false) = (&current_row_values, current_is_tombstone) {
+                for (col_idx, index_name, _is_pk) in &unique_columns {
+                    if file_manager.index_exists(&schema_name, &table_name, index_name) {
+                        if let Some(value) = row_values.get(*col_idx) {
+                            if !value.is_null() {
+                                let index_storage_arc = file_manager.index_data_mut(
+                                    &schema_name,
+                                    &table_name,
+                                    index_name,
+                                )?;
+                                let mut index_storage = index_storage_arc.write();
+                                let index_root_page = {
+                                    let page0 = index_storage.page(0)?;
+                                    IndexFileHeader::from_bytes(page0)?.root_page()
+                                };
+                                let mut index_btree =
+                                    BTree::new(&mut *index_storage, index_root_page)?;
+                                key_buf.clear();
+                                Self::encode_value_as_key(value, key_buf);
+                                let _ = index_btree.delete(key_buf);
+                            }
+                        }
+                    }
+                }
+
+                for (index_name, col_indices, is_unique_index) in &secondary_indexes {
+                    if col_indices.is_empty()
+                        || !file_manager.index_exists(&schema_name, &table_name, index_name)
+                    {
+                        continue;
+                    }
+                    let all_non_null = col_indices
+                        .iter()
+                        .all(|&idx| row_values.get(idx).is_some_and(|v| !v.is_null()));
+                    if all_non_null || !*is_unique_index {
+                        let index_storage_arc =
+                            file_manager.index_data_mut(&schema_name, &table_name, index_name)?;
+                        let mut index_storage = index_storage_arc.write();
+                        let index_root_page = {
+                            let page0 = index_storage.page(0)?;
+                            IndexFileHeader::from_bytes(page0)?.root_page()
+                        };
+                        let mut index_btree = BTree::new(&mut *index_storage, index_root_page)?;
+                        key_buf.clear();
+                        for &col_idx in col_indices {
+                            if let Some(value) = row_values.get(col_idx) {
+                                Self::encode_value_as_key(value, key_buf);
+                            }
+                        }
+                        if !*is_unique_index {
+                            key_buf.extend_from_slice(&entry.key);
+                        }
+                        let _ = index_btree.delete(key_buf);
+                    }
+                }
+            }
 
             let old_row_values: Option<Vec<OwnedValue>> = {
                 let user_data = get_user_data(old_value);
@@ -779,7 +887,7 @@ impl Database {
                 }
             };
 
-            if let Some(row_values) = old_row_values {
+            if let (Some(row_values), false) = (old_row_values, old_is_tombstone) {
                 for (col_idx, index_name, _is_pk) in &unique_columns {
                     if file_manager.index_exists(&schema_name, &table_name, index_name) {
                         if let Some(value) = row_values.get(*col_idx) {
@@ -802,21 +910,15 @@ impl Database {
                                 key_buf.clear();
                                 Self::encode_value_as_key(value, key_buf);
 
-                                let pk_idx = columns
-                                    .iter()
-                                    .position(|c| c.has_constraint(&Constraint::PrimaryKey));
-                                if let Some(pk_idx) = pk_idx {
-                                    if let Some(OwnedValue::Int(pk_val)) = row_values.get(pk_idx) {
-                                        let row_id_bytes = (*pk_val as u64).to_be_bytes();
-                                        let _ = index_btree.insert(key_buf, &row_id_bytes);
-                                    }
-                                }
+                                // like INSERT, the index maps the value to the row key
+                                let _ = index_btree.delete(key_buf);
+                                let _ = index_btree.insert(key_buf, &entry.key);
                             }
                         }
                     }
                 }
 
-                for (index_name, col_indices) in &secondary_indexes {
+                for (index_name, col_indices, is_unique_index) in &secondary_indexes {
                     if col_indices.is_empty() {
                         continue;
                     }
@@ -825,7 +927,7 @@ impl Database {
                             .iter()
                             .all(|&idx| row_values.get(idx).is_some_and(|v| !v.is_null()));
 
-                        if all_non_null {
+                        if all_non_null || !*is_unique_index {
                             let index_storage_arc = file_manager.index_data_mut(
                                 &schema_name,
                                 &table_name,
@@ -846,16 +948,12 @@ impl Database {
                                     Self::encode_value_as_key(value, key_buf);
                                 }
                             }
-
-                            let pk_idx = columns
-                                .iter()
-                                .position(|c| c.has_constraint(&Constraint::PrimaryKey));
-                            if let Some(pk_idx) = pk_idx {
-                                if let Some(OwnedValue::Int(pk_val)) = row_values.get(pk_idx) {
-                                    let row_id_bytes = (*pk_val as u64).to_be_bytes();
-                                    let _ = index_btree.insert(key_buf, &row_id_bytes);
-                                }
+                            if !*is_unique_index {
+                                key_buf.extend_from_slice(&entry.key);
                             }
+
+                            let _ = index_btree.delete(key_buf);
+                            let _ = index_btree.insert(key_buf, &entry.key);
                         }
                     }
                 }
